@@ -32,7 +32,7 @@ PROP = dict(
          "reconnect, take-over, subscribe with options, unsubscribe, publish QoS 0-2 retained/with properties/with a topic alias, QoS "
          "acknowledgements, clean disconnect with expiry override, connection drop, housekeeping ticks) over ids/filters/"
          "topics with ':' '_' '/' unicode: quick 40 histories on bolt+redis (every 8th on all four), thorough 400 on all "
-         "four.  non-trivial = more than 3 storage writes; distinct = distinct case lines",
+         "four.  two-life histories (a first broker process ended by shutdown or killed, store-loading step, a second process, final restart): 4 directed (ending session with subscription and unacknowledged message killed, same id back with a persistent session / with Clean Start 1 and an expiry interval; persistent session killed, expired in the next process, new session; persistent session killed and resumed) on all four back ends + random ones (quick 6, thorough 60).  non-trivial = more than 3 storage writes; distinct = distinct case lines",
     exhaustive=False,
     modelled="server.go readStore, loadClients, loadSubscriptions, loadInflight, loadRetained, restoreExpiry; "
              "hooks/storage/storage.go Message.ToPacket; the four storage hooks (see C22)",
